@@ -2405,6 +2405,7 @@ class BDD(dd._abc.BDD[_Ref]):
         with open(filename, 'wb') as f:
             pickle.dump(d, f, **kw)
 
+    @_suspend_reordering
     def load(
             self,
             filename:
@@ -2804,7 +2805,7 @@ def image(
     s.intersection_update(rename.values())
     if s:
         raise AssertionError(s)
-    return _image(
+    return _image_root(
         trans, source, rename_u, rename_v,
         qvars, bdd, forall, cache)
 
@@ -2857,9 +2858,47 @@ def preimage(
     rename_v = rename
     # check
     _assert_valid_rename(target, bdd, rename)
-    return _image(
+    return _image_root(
         trans, target, rename_u, rename_v,
         qvars, bdd, forall, cache)
+
+
+def _image_root(
+        u:
+            _Ref,
+        v:
+            _Ref,
+        umap:
+            dict |
+            None,
+        vmap:
+            dict |
+            None,
+        qvars:
+            set[_Level],
+        bdd:
+            BDD,
+        forall:
+            _Yes,
+        cache:
+            dict[
+                tuple[_Ref, _Ref],
+                _Ref]
+        ) -> _Ref:
+    """Call `_image()` with reordering requests disabled.
+
+    The arguments of `_image()` are levels, and its
+    intermediate results are not referenced, so it
+    cannot be interrupted or restarted by reordering.
+    """
+    last_len = bdd._last_len
+    bdd._last_len = None
+    try:
+        return _image(
+            u, v, umap, vmap,
+            qvars, bdd, forall, cache)
+    finally:
+        bdd._last_len = last_len
 
 
 def _image(
@@ -3164,10 +3203,17 @@ def copy_bdd(
             to_bdd.level_of_var(var)
         for var in from_bdd.vars
         if var in to_bdd.vars}
-    r = _copy_bdd(
-        u, level_map,
-        from_bdd, to_bdd,
-        cache=dict())
+    # intermediate results are not referenced,
+    # so disable reordering requests in `to_bdd`
+    last_len = to_bdd._last_len
+    to_bdd._last_len = None
+    try:
+        r = _copy_bdd(
+            u, level_map,
+            from_bdd, to_bdd,
+            cache=dict())
+    finally:
+        to_bdd._last_len = last_len
     return r
 
 
